@@ -1,8 +1,8 @@
 /-
 Model driver for C03 (pattern matching and unpacking). Stateful line protocol:
 
-  cfg <0|1>×6                      which repairs the mirrored code contains (Match.Cfg: sizeNullJumps,
-                                   nestedLast, accessFalls, rangeSlices, subjectCopied, typedFirst); response `ok`
+  cfg <0|1>×7                      which repairs the mirrored code contains (Match.Cfg: sizeNullJumps,
+                                   nestedLast, accessFalls, rangeSlices, subjectCopied, typedFirst, mapAtomic); response `ok`
   arms <nvars> <v|e|m> <arm>*      set the current match; response `ok`
       arm   := (arm (<alt>*) <guard>)            no alternatives = `else`
       alt   := (one <pat>) | (many <pat>*)
@@ -248,8 +248,8 @@ def step (st : St) (line : String) : St × String :=
        ({ st with nvars := n, mode := mode, arms := as },
         s!"ok early={if as.any armEarly then 1 else 0} binds99={if as.any armBinds99 then 1 else 0}")
      | _, _ => (st, "bad-request"))
-  | [.atom "cfg", .atom a, .atom b, .atom c, .atom d, .atom e, .atom f] =>
-    ({ st with cfg := ⟨a == "1", b == "1", c == "1", d == "1", e == "1", f == "1"⟩ }, "ok")
+  | [.atom "cfg", .atom a, .atom b, .atom c, .atom d, .atom e, .atom f, .atom g] =>
+    ({ st with cfg := ⟨a == "1", b == "1", c == "1", d == "1", e == "1", f == "1", g == "1"⟩ }, "ok")
   | .atom "s" :: vals =>
     (match vals.mapM parseVal with
      | none => (st, "bad-request")
